@@ -1,5 +1,5 @@
 #!/bin/sh
-# usage: confirm_seed.sh <seed dir with patch.diff and demo/demo_test.rs> ...
+# usage: confirm_seed.sh <seed dir with patch.diff and demo/demo_test.rs or demo/demo.sh> ...
 # In a scratch worktree of /repo: the demonstration passes without the change, fails with it, and the 58 existing tests pass with it.
 WT=/tmp/wt/confirm
 export CARGO_NET_OFFLINE=true CARGO_TARGET_DIR=/tmp/wt/confirm-target
@@ -7,11 +7,17 @@ if [ ! -d $WT ]; then git -C /repo worktree add -q $WT HEAD || exit 9; fi
 for S in "$@"; do
   cd $WT && git checkout -q -- . && git clean -qfd tests
   git -C $WT checkout -q --detach $(git -C /repo rev-parse HEAD)
-  cp $S/demo/demo_test.rs $WT/tests/demo_test.rs
-  cargo test --offline --test demo_test > $S/confirm_without.log 2>&1; A=$?
-  git apply $S/patch.diff || { echo "$S: patch does not apply"; continue; }
-  cargo test --offline --test demo_test > $S/confirm_with.log 2>&1; B=$?
-  rm $WT/tests/demo_test.rs
+  if [ -f $S/demo/demo.sh ]; then
+    sh $S/demo/demo.sh $WT > $S/confirm_without.log 2>&1; A=$?
+    git apply $S/patch.diff || { echo "$S: patch does not apply"; continue; }
+    sh $S/demo/demo.sh $WT > $S/confirm_with.log 2>&1; B=$?
+  else
+    cp $S/demo/demo_test.rs $WT/tests/demo_test.rs
+    cargo test --offline --test demo_test > $S/confirm_without.log 2>&1; A=$?
+    git apply $S/patch.diff || { echo "$S: patch does not apply"; continue; }
+    cargo test --offline --test demo_test > $S/confirm_with.log 2>&1; B=$?
+    rm $WT/tests/demo_test.rs
+  fi
   cargo nextest run --workspace --no-fail-fast --offline --test-threads 8 > $S/confirm_suite.log 2>&1; C=$?
   PASSED=$(grep -o "[0-9]* passed" $S/confirm_suite.log | tail -1)
   echo "$S: demo_without_change_exit=$A demo_with_change_exit=$B suite_exit=$C ($PASSED)"
